@@ -198,6 +198,8 @@ func (ex *Exec) indexByte(b []value, c value) int {
 func registerStubs(e *Engine) {
 	registerSymAPI(e)
 	registerStoreStubs(e)
+	registerNumStubs(e)
+	registerProtoStubs(e)
 
 	// ---- fmt ----
 	e.reg("fmt.Sprintf", func(fr *frame, args []value) value { return fr.ex.sprintf(fr, args[0], args[1].([]value)) })
@@ -708,15 +710,14 @@ func (e *Engine) maxDigits() int {
 	return 2
 }
 
-// parseInt parses a decimal integer from a string whose bytes may be symbolic.
+// parseInt implements strconv.ParseInt/ParseUint/Atoi results (value, error).
 func (ex *Exec) parseInt(fr *frame, sv value, bits int, k types.BasicKind, signed bool) value {
-	res := fr.fn.Signature.Results()
-	rk := basicKind(res.At(0).Type())
+	rk := basicKind(fr.fn.Signature.Results().At(0).Type())
 	if s, ok := sv.(string); ok {
+		if bits == 0 {
+			bits = 64
+		}
 		if signed {
-			if bits == 0 {
-				bits = 64
-			}
 			n, err := strconv.ParseInt(s, 10, bits)
 			var ev value = iface{}
 			if err != nil {
@@ -731,46 +732,12 @@ func (ex *Exec) parseInt(fr *frame, sv value, bits int, k types.BasicKind, signe
 		}
 		return tuple{concreteOf(n, rk), ev}
 	}
-	b := strBytes(sv)
-	bad := func() value {
-		return tuple{concreteOf(0, rk), mkError("strconv.ParseInt: parsing <symbolic>: invalid syntax", nil)}
+	r := ex.parseIntTo(sv, rk, signed)
+	if r.err {
+		return tuple{concreteOf(0, rk), mkError("strconv: parsing <symbolic>: invalid syntax", nil)}
 	}
-	if len(b) == 0 {
-		return bad()
-	}
-	if len(b) > 18 {
-		panic(unsupported{"parseInt of a symbolic string longer than 18 bytes"})
-	}
-	neg := false
-	i := 0
-	if signed {
-		if ex.decide(eqTerm(b[0], uint8('-'))) {
-			neg = true
-			i = 1
-		} else if ex.decide(eqTerm(b[0], uint8('+'))) {
-			i = 1
-		}
-	}
-	if i >= len(b) {
-		return bad()
-	}
-	acc := BV(64, 0)
-	for ; i < len(b); i++ {
-		t := termOf(b[i])
-		isDigit := And(Bin("bvule", BV(8, '0'), t), Bin("bvule", t, BV(8, '9')))
-		if !ex.decide(isDigit) {
-			// underscores are only legal with base 0
-			return bad()
-		}
-		d := ZeroExt(64, Bin("bvsub", t, BV(8, '0')))
-		acc = Bin("bvadd", Bin("bvmul", acc, BV(64, 10)), d)
-	}
-	if neg {
-		acc = Un("bvneg", acc)
-	}
-	w := kindWidth(rk)
-	if w < 64 {
-		acc = Extract(int(w)-1, 0, acc)
-	}
-	return tuple{mkval(acc, rk), iface{}}
+	return tuple{r.v, iface{}}
 }
+
+func parseInt64(s string) (int64, error)   { return strconv.ParseInt(s, 10, 64) }
+func parseUint64(s string) (uint64, error) { return strconv.ParseUint(s, 10, 64) }
